@@ -55,6 +55,18 @@ Example C13_example_f5 :   (* 0000-01-01T00:00:00+01:00 *)
   ts_parse (map Z.to_N [48;48;48;48;45;48;49;45;48;49;84;48;48;58;48;48;58;48;48;43;48;49;58;48;48]) = Err TsInvalid.
 Proof. vm_compute. reflexivity. Qed.
 
+(* durations that arrive through serde carry (seconds, nanoseconds) of any sign: a whole-second duration behaves as the integer arithmetic,
+   every result lies in the range, and a fraction moves the result by less than one second (floor) *)
+Theorem C13_serde_duration_whole : forall t secs,
+  ts_checked_add_ns t secs 0 = ts_checked_add t secs /\ ts_checked_sub_ns t secs 0 = ts_checked_sub t secs.
+Proof. exact (fun t secs => conj (checked_add_ns_whole t secs) (checked_sub_ns_whole t secs)). Qed.
+Theorem C13_serde_duration_in_range : forall t secs nanos x,
+  (ts_checked_add_ns t secs nanos = Some x -> ts_gate x = true) /\ (ts_checked_sub_ns t secs nanos = Some x -> ts_gate x = true).
+Proof. exact (fun t secs nanos x => conj (checked_add_ns_in_range t secs nanos x) (checked_sub_ns_in_range t secs nanos x)). Qed.
+Theorem C13_serde_duration_floor : forall t secs nanos x, -1000000000 < nanos < 1000000000 ->
+  ts_checked_add_ns t secs nanos = Some x -> t + secs - 1 <= x <= t + secs.
+Proof. exact checked_add_ns_floor. Qed.
+
 Print Assumptions C13_calendar_roundtrip.
 Print Assumptions C13_year_gate_iff.
 Print Assumptions C13_parse_denotes.
@@ -66,3 +78,6 @@ Print Assumptions C13_unix_roundtrip.
 Print Assumptions C13_unix_out_of_range.
 Print Assumptions C13_checked_add.
 Print Assumptions C13_checked_sub.
+Print Assumptions C13_serde_duration_whole.
+Print Assumptions C13_serde_duration_in_range.
+Print Assumptions C13_serde_duration_floor.
